@@ -27,7 +27,8 @@ LEVEL = 'fault_enumeration'
 BUDGET_S = {'quick': 150, 'thorough': 2400}
 EXHAUSTIVE = {'quick': False, 'thorough': False}
 RULE = ("cells = 214 legal (firstcond, mask) x 16 NZCV x 6 exception kinds, all enumerated in both tiers; slot contents (marker MOV, the 23 sixteen-bit "
-        "flag-setting data-processing encodings, MOV.W/ADD.W, CMP, LDR/STR, SVC, UDF, branch as last slot), injection position, handler ISA and return "
+        "flag-setting data-processing encodings, MOV.W/ADD.W, seeded 32-bit data-processing / bit-field / saturating / parallel / multiply forms, MRS, MSR CPSR_x, "
+        "CMP, LDR/STR (16-bit, .W with Rt=SP), LDM/STM.W, LDRD/STRD, NOP, SVC, UDF, and as last slot B/B.W/BL/BX/BLX/MOV pc/LDR pc), injection position, handler ISA and return "
         "sequence seeded per cell (thorough: position enumerated, 4 seeds per cell). distinct_nontrivial = distinct (firstcond, mask, NZCV, position, kind, "
         "handler ISA) cells in which at least one slot condition failed and one passed, or an exception was actually taken inside the block.")
 ASSUMPTIONS = [
